@@ -544,5 +544,152 @@ func ruleOwnerOnSuccess(c *Ctx, r *Rep, tier string) {
 	r.Check(why == "", rule, "bgzf.(*block).readFrom#owner", c.Pos(fn.Pos()), "owner = nil before the decode, restored on its success edge only", "a block whose decode failed (new base, old data) must not look owned – it would be cached and served on a later hit:"+why)
 }
 
+// ruleBaseDropsData (BASE-DROPS-DATA): a block that is given a new base has no
+// data until a read into it succeeds: setBase clears the buffer. (A block with
+// the new base and the old member's data is accepted by Seek's "same block,
+// has data" shortcut and can be cached.)
+func ruleBaseDropsData(c *Ctx, r *Rep, tier string) {
+	rule := "BASE-DROPS-DATA"
+	fn := c.Func("bgzf", "(*block).setBase")
+	effs := effectsOf(fn)
+	r.Instance(rule, 1)
+	ok := hasEff(effs, "store", "b.buf", "nil") != nil && hasEff(effs, "store", "b.base", "n") != nil
+	r.Check(ok, rule, "bgzf.(*block).setBase#invalidates", c.Pos(fn.Pos()), "b.base = n together with b.buf = nil", "setBase re-targets the block but keeps the previous member's data: after a failed read the block looks like a valid block of the new base (wrong bytes after a retried Seek; cacheable)")
+	// hasData is what the shortcuts test
+	r.Instance(rule, 1)
+	hd := c.Func("bgzf", "(*block).hasData")
+	sr := symExec(hd, map[string]int64{})
+	r.Check(len(sr.RetKeys) == 1 && sr.RetKeys[0] == "(b.buf!=nil)", rule, "bgzf.(*block).hasData#buf", c.Pos(hd.Pos()), "hasData() = (b.buf != nil)", "hasData is "+strings.Join(sr.RetKeys, ",")+": the invalidation by setBase is not what the reader's shortcuts look at")
+}
+
+// ruleSeekRedirect (SEEK-REDIRECT): when Reader.Seek replaces the current block
+// with one from the cache, the read-ahead worker has to be told where the reader
+// now is (a send on control), as the other two branches of Seek do – or the
+// branch must be limited to the synchronous mode. Otherwise the worker keeps
+// reading ahead of the *old* position and the next block change finds only
+// blocks it does not expect.
+func ruleSeekRedirect(c *Ctx, r *Rep, tier string) {
+	rule := "SEEK-REDIRECT"
+	fn := c.Func("bgzf", "(*Reader).Seek")
+	var swap *ssa.Call
+	var final ssa.Instruction
+	allInstrs(fn, func(ins ssa.Instruction) {
+		if call, ok := ins.(*ssa.Call); ok {
+			if g := staticCallee(&call.Call); g != nil && g.Name() == "cacheSwap" {
+				swap = call
+			}
+			if symKey(call) == "bg.current.seek(off.Block)" {
+				final = call
+			}
+		}
+	})
+	if swap == nil || final == nil {
+		unresolved("bgzf.(*Reader).Seek: cacheSwap call / final in-block seek not found")
+	}
+	r.Instance(rule, 1)
+	isSend := func(ins ssa.Instruction) bool {
+		if s, ok := ins.(*ssa.Send); ok {
+			f, _ := loadedField(s.Chan)
+			return f != nil && f.Name() == "control"
+		}
+		return false
+	}
+	why := ""
+	for _, b := range fn.Blocks {
+		iff := ifOf(b)
+		if iff == nil || iff.Cond != ssa.Value(swap) {
+			continue
+		}
+		// the true edge: the cache supplied the block
+		syncOnly := func(from, to *ssa.BasicBlock) bool {
+			// an edge that establishes the synchronous mode (bg.dec != nil / bg.control == nil) ends the obligation
+			ce, ok := classifyErrIf(from, func(v ssa.Value) bool {
+				f, _ := loadedField(v)
+				return f != nil && (f.Name() == "dec" || f.Name() == "control")
+			})
+			if !ok || !ce.isNil {
+				return true
+			}
+			f, _ := loadedField(ce.subj)
+			nilEdge := from.Succs[ce.yes]
+			if f.Name() == "control" && to == nilEdge {
+				return false
+			}
+			if f.Name() == "dec" && to != nilEdge {
+				return false
+			}
+			return true
+		}
+		if _, reach := pathTo(Loc{b.Succs[0], -1}, is(final), isSend, syncOnly); reach {
+			why = "after a cache hit Seek goes on to position the new current block without telling the read-ahead worker (no send on control, no restriction to the synchronous mode): the worker keeps reading ahead of the old position"
+		}
+	}
+	r.Check(why == "", rule, "bgzf.(*Reader).Seek#cache-hit-redirect", c.Pos(swap.Pos()), "the cache-hit branch redirects the read-ahead worker", why)
+}
+
+// rulePipeStall (PIPE-STALL): the read-ahead loop looks at the decompressor's
+// error before it derives the next offset from the block it may have failed to
+// read. A failed read leaves a block without header, NextBase() is -1, the
+// worker then blocks on control – which only Seek feeds – while nextBlock,
+// which discards error results for blocks it did not ask for, blocks on working.
+func rulePipeStall(c *Ctx, r *Rep, tier string) {
+	rule := "PIPE-STALL"
+	nr := c.Func("bgzf", "NewReader")
+	var worker *ssa.Function
+	for _, f := range nr.AnonFuncs {
+		has := false
+		allInstrs(f, func(ins ssa.Instruction) {
+			if call, ok := ins.(*ssa.Call); ok {
+				if g := staticCallee(&call.Call); g != nil && g.Name() == "nextBlockAt" {
+					has = true
+				}
+			}
+		})
+		if has {
+			worker = f
+		}
+	}
+	if worker == nil {
+		unresolved("bgzf.NewReader: read-ahead literal not found")
+	}
+	var nba, nb *ssa.Call
+	allInstrs(worker, func(ins ssa.Instruction) {
+		if call, ok := ins.(*ssa.Call); ok {
+			name := ""
+			if g := staticCallee(&call.Call); g != nil {
+				name = g.Name()
+			} else if call.Call.IsInvoke() {
+				name = call.Call.Method.Name()
+			}
+			switch name {
+			case "nextBlockAt":
+				nba = call
+			case "NextBase":
+				nb = call
+			}
+		}
+	})
+	r.Instance(rule, 1)
+	why := ""
+	if nba == nil || nb == nil {
+		why = "nextBlockAt / NextBase calls not found in the read-ahead loop"
+	} else {
+		tested := false
+		for _, b := range worker.Blocks {
+			iff := ifOf(b)
+			if iff == nil {
+				continue
+			}
+			if condMentions(iff.Cond, "err", 0) && instrDominates(nba, iff) && (dominatedByEdge(worker, b, 0, nb.Block()) || dominatedByEdge(worker, b, 1, nb.Block())) {
+				tested = true
+			}
+		}
+		if !tested {
+			why = "the next read-ahead offset is taken from dec.blk.NextBase() whether or not nextBlockAt failed: after a failure it is -1 and the worker waits on control, which nothing but Seek feeds, while the reader waits on working for a block nobody is reading"
+		}
+	}
+	r.Check(why == "", rule, "bgzf.NewReader$read-ahead#error-before-next", c.Pos(worker.Pos()), "the loop tests the decompressor's error before deriving the next offset", why)
+}
+
 var _ = types.Typ
 var _ = token.ADD
